@@ -47,6 +47,9 @@ type Contract struct {
 	Pure         bool
 	NoPanic      bool
 	NoPanicTags  []string
+	PanicAssumed bool      // explicit panic sites are assumed unreachable under requires (documented panic; trusted link)
+	Inline       bool      // callers execute the body instead of using the contract
+	AllocBound   *SpecExpr // every make([]T, n) in the function must have n <= this bound (resource obligation)
 	ChanSafe     bool
 	ChanSafeTags []string
 	Trusted      bool
@@ -79,6 +82,7 @@ type ContractDB struct {
 	byFunc     map[string]*Contract
 	byIface    map[string]*Contract
 	byFuncType map[string]*Contract
+	ambiguous  map[string]bool
 	specFns    map[string]*SpecFn
 	preds      map[string]*Pred
 	axioms     []*SpecExpr
@@ -87,6 +91,8 @@ type ContractDB struct {
 	guardTags  map[string][]string
 	lockinv    map[string]*SpecExpr // structKey + "." + mutex field
 	lockinvP   map[string]*types.Package
+	typeinv    map[string]*SpecExpr
+	typeinvP   map[string]*types.Package
 	strIDs     map[string]int
 	typeIDs    map[string]int
 	typeByID   map[int]types.Type
@@ -94,9 +100,9 @@ type ContractDB struct {
 }
 
 func newDB(w *World) *ContractDB {
-	return &ContractDB{w: w, byFunc: map[string]*Contract{}, byIface: map[string]*Contract{}, byFuncType: map[string]*Contract{},
+	return &ContractDB{w: w, byFunc: map[string]*Contract{}, byIface: map[string]*Contract{}, byFuncType: map[string]*Contract{}, ambiguous: map[string]bool{},
 		specFns: map[string]*SpecFn{}, preds: map[string]*Pred{}, guarded: map[string]map[string]string{},
-		guardTags: map[string][]string{}, lockinv: map[string]*SpecExpr{}, lockinvP: map[string]*types.Package{},
+		guardTags: map[string][]string{}, lockinv: map[string]*SpecExpr{}, lockinvP: map[string]*types.Package{}, typeinv: map[string]*SpecExpr{}, typeinvP: map[string]*types.Package{},
 		strIDs: map[string]int{}, typeIDs: map[string]int{}, typeByID: map[int]types.Type{}}
 }
 
@@ -352,7 +358,9 @@ func (db *ContractDB) parseLines(lines []srcLine, pkg *types.Package, trusted bo
 				c.Pkg = fn.Object().Pkg()
 			}
 			if old, dup := db.byFunc[c.Key]; dup {
-				db.errf("%s: duplicate contract for %s (first at %s)", src, c.Key, old.Src)
+				// clauses for one function may be spread over several contract files: merge
+				cur = old
+				continue
 			}
 			db.byFunc[c.Key] = c
 			cur = c
@@ -485,7 +493,14 @@ func (db *ContractDB) parseLines(lines []srcLine, pkg *types.Package, trusted bo
 				continue
 			}
 			p.Body = se.Expr
-			db.preds[p.Name] = p
+			if pkg != nil {
+				db.preds[pkg.Path()+"."+p.Name] = p
+			}
+			if _, dup := db.preds[p.Name]; !dup {
+				db.preds[p.Name] = p
+			} else {
+				db.ambiguous[p.Name] = true
+			}
 		case "axiom":
 			cur = nil
 			se, err := parseSpec(rest, tags, src)
@@ -513,6 +528,23 @@ func (db *ContractDB) parseLines(lines []srcLine, pkg *types.Package, trusted bo
 				db.guarded[key][strings.TrimSpace(fl)] = tm[1]
 			}
 			db.guardTags[key] = tags
+		case "typeinv":
+			// typeinv T := expr over self (*T): holds for every allocated T outside its own package's methods
+			cur = nil
+			i := strings.Index(rest, ":=")
+			obj := pkg.Scope().Lookup(strings.TrimSpace(rest[:i]))
+			if obj == nil {
+				db.errf("%s: bad typeinv", src)
+				continue
+			}
+			se, err := parseSpec(strings.TrimSpace(rest[i+2:]), tags, src)
+			if err != nil {
+				db.errf("%v", err)
+				continue
+			}
+			k := "S_" + typeKey(obj.Type())
+			db.typeinv[k] = se
+			db.typeinvP[k] = pkg
 		case "lockinv":
 			cur = nil
 			i := strings.Index(rest, ":=")
@@ -565,6 +597,17 @@ func (db *ContractDB) parseLines(lines []srcLine, pkg *types.Package, trusted bo
 			case "nopanic":
 				cur.NoPanic = true
 				cur.NoPanicTags = tags
+			case "panic_unreachable_under_requires":
+				cur.PanicAssumed = true
+			case "allocbound":
+				se, err := parseSpec(rest, tags, src)
+				if err != nil {
+					db.errf("%v", err)
+					continue
+				}
+				cur.AllocBound = se
+			case "inline":
+				cur.Inline = true
 			case "chansafe":
 				cur.ChanSafe = true
 				cur.ChanSafeTags = tags
@@ -638,10 +681,14 @@ type specEnv struct {
 
 // wf assumes the heap well-formedness facts (allocation bound, ranges) of a value read in a spec.
 func (env *specEnv) wf(v T) {
-	if env.nbound > 0 || v.Go == nil {
+	env.wfFrom(v, "", "")
+}
+
+func (env *specEnv) wfFrom(v T, heap, idx string) {
+	if env.nbound > 0 || v.Go == nil || strings.Contains(v.S, "!q") {
 		return
 	}
-	fs := env.f.facts(v.S, v.Go, env.cur)
+	fs := env.f.factsFrom(v.S, v.Go, env.cur, heap, idx)
 	if fs != "true" {
 		env.f.e.assume(fs)
 	}
@@ -649,6 +696,9 @@ func (env *specEnv) wf(v T) {
 
 func (f *frame) specEnv(cur *State) *specEnv {
 	env := &specEnv{f: f, vars: map[string]T{}, cur: cur, old: cur}
+	if f.root != nil && f.root.entrySt != nil {
+		env.old = f.root.entrySt // old(...) in loop invariants and ghost clauses refers to the root's entry state
+	}
 	if f.fn != nil {
 		for _, p := range f.fn.Params {
 			if t, ok := f.vals[p]; ok {
@@ -809,14 +859,15 @@ func (env *specEnv) eval(x ast.Expr) (T, error) {
 			return untypedNil, nil
 		case "true", "false":
 			return T{x.Name, "Bool", types.Typ[types.Bool]}, nil
-		case "result":
+		}
+		if t, ok := env.vars[x.Name]; ok && !(x.Name == "result" && len(env.results) > 0) {
+			return t, nil
+		}
+		if x.Name == "result" {
 			if len(env.results) == 0 {
 				return T{}, fmt.Errorf("no result here")
 			}
 			return env.results[0], nil
-		}
-		if t, ok := env.vars[x.Name]; ok {
-			return t, nil
 		}
 		for i, n := range env.resName {
 			if n == x.Name && n != "" && i < len(env.results) {
@@ -925,6 +976,30 @@ func (env *specEnv) eval(x ast.Expr) (T, error) {
 			return T{"(select " + a.S + " " + k.S + ")", e.sortOf(u.Elem()), u.Elem()}, nil
 		}
 		return T{}, fmt.Errorf("cannot index %s", a.Go)
+	case *ast.SliceExpr:
+		a, err := env.eval(x.X)
+		if err != nil {
+			return T{}, err
+		}
+		if a.Sort != "Slice" {
+			return T{}, fmt.Errorf("slice expression on %s", a.Sort)
+		}
+		lo, hi := "0", "(slen "+a.S+")"
+		if x.Low != nil {
+			l, err := env.eval(x.Low)
+			if err != nil {
+				return T{}, err
+			}
+			lo = l.S
+		}
+		if x.High != nil {
+			h, err := env.eval(x.High)
+			if err != nil {
+				return T{}, err
+			}
+			hi = h.S
+		}
+		return T{"(mk_slice (sarr " + a.S + ") (+ (soff " + a.S + ") " + lo + ") (- " + hi + " " + lo + ") (- (scap " + a.S + ") " + lo + "))", "Slice", a.Go}, nil
 	case *ast.TypeAssertExpr:
 		a, err := env.eval(x.X)
 		if err != nil {
@@ -1000,7 +1075,7 @@ func (env *specEnv) field(a T, name string) (T, error) {
 			if e.isPriv(S) {
 				f.protect(v)
 			}
-			env.wf(v)
+			env.wfFrom(v, h, cur.S)
 			cur = v
 		case *types.Struct:
 			k := e.sortOf(cur.Go)
@@ -1225,6 +1300,33 @@ func (env *specEnv) call(x *ast.CallExpr) (T, error) {
 			return T{}, err
 		}
 		return T{f.hasType(a.S, t), "Bool", boolT}, nil
+	case "typeid":
+		t, err := env.resolveType(x.Args[0])
+		if err != nil {
+			return T{}, err
+		}
+		return T{fmt.Sprint(e.typeID(t)), "Int", nil}, nil
+	case "isptrtype":
+		// isptrtype(tag): the dynamic type with this tag is a pointer type
+		a, err := env.eval(x.Args[0])
+		if err != nil {
+			return T{}, err
+		}
+		e.declFun("ptrtype", []string{"Int"}, "Bool")
+		f.ptrTypeFacts()
+		return T{"(ptrtype " + a.S + ")", "Bool", boolT}, nil
+	case "refof", "dyntype":
+		a, err := env.eval(x.Args[0])
+		if err != nil {
+			return T{}, err
+		}
+		if a.Sort != "Iface" {
+			return T{}, fmt.Errorf("%s of non-interface", name)
+		}
+		if name == "refof" {
+			return T{"(ival " + a.S + ")", "Int", nil}, nil
+		}
+		return T{"(ityp " + a.S + ")", "Int", nil}, nil
 	case "fresh":
 		a, err := env.eval(x.Args[0])
 		if err != nil {
@@ -1236,7 +1338,8 @@ func (env *specEnv) call(x *ast.CallExpr) (T, error) {
 		} else if a.Sort == "Slice" {
 			ref = "(sarr " + a.S + ")"
 		}
-		return T{"(> " + ref + " " + e.H(env.old, "W", "Int") + ")", "Bool", boolT}, nil
+		e.declFun("owner", []string{"Int"}, "Int")
+		return T{"(> (owner " + ref + ") " + e.H(env.old, "W", "Int") + ")", "Bool", boolT}, nil
 	case "unchanged":
 		var cs []string
 		for _, a := range x.Args {
@@ -1251,6 +1354,52 @@ func (env *specEnv) call(x *ast.CallExpr) (T, error) {
 			cs = append(cs, eq(o.S, n.S))
 		}
 		return T{and(cs...), "Bool", boolT}, nil
+	case "each":
+		// each(s, x, body): body holds for every element x of slice s (quantified over absolute
+		// positions in the backing array so that E-matching has a plain select pattern);
+		// expanded into a conjunction when s has a statically known small length
+		if err := argN(3); err != nil {
+			return T{}, err
+		}
+		id, ok := x.Args[1].(*ast.Ident)
+		if !ok {
+			return T{}, fmt.Errorf("each: second argument must be a variable")
+		}
+		sv, err := env.eval(x.Args[0])
+		if err != nil {
+			return T{}, err
+		}
+		stp, ok := sv.Go.Underlying().(*types.Slice)
+		if !ok {
+			return T{}, fmt.Errorf("each over non-slice")
+		}
+		h, hs := f.elemHeap(stp.Elem())
+		if h == "" {
+			return T{}, fmt.Errorf("each over slice of structs not supported")
+		}
+		esort := e.sortOf(stp.Elem())
+		if n, ok := staticSliceLen(sv.S); ok && n <= 16 {
+			var cs []string
+			for k := 0; k < n; k++ {
+				el := T{"(select (select " + e.H(env.cur, h, hs) + " (sarr " + sv.S + ")) (+ (soff " + sv.S + ") " + fmt.Sprint(k) + "))", esort, stp.Elem()}
+				b, err := env.bind(id.Name, el).eval(x.Args[2])
+				if err != nil {
+					return T{}, err
+				}
+				cs = append(cs, b.S)
+			}
+			return T{and(cs...), "Bool", boolT}, nil
+		}
+		e.nfresh++
+		vn := fmt.Sprintf("pos!q%d", e.nfresh)
+		el := T{"(select (select " + e.H(env.cur, h, hs) + " (sarr " + sv.S + ")) " + vn + ")", esort, stp.Elem()}
+		benv := env.bind(id.Name, el)
+		benv.nbound = env.nbound + 1
+		b, err := benv.eval(x.Args[2])
+		if err != nil {
+			return T{}, err
+		}
+		return T{"(forall ((" + vn + " Int)) (=> (and (<= (soff " + sv.S + ") " + vn + ") (< " + vn + " (+ (soff " + sv.S + ") (slen " + sv.S + ")))) " + b.S + "))", "Bool", boolT}, nil
 	case "forall", "exists":
 		if err := argN(3); err != nil {
 			return T{}, err
@@ -1282,12 +1431,22 @@ func (env *specEnv) call(x *ast.CallExpr) (T, error) {
 		}
 		return T{"(exists ((" + vn + " " + srt + ")) " + and(rf, body.S) + ")", "Bool", boolT}, nil
 	}
-	if p, ok := e.db.preds[name]; ok {
+	p, ok := (*Pred)(nil), false
+	if env.pkg != nil {
+		p, ok = e.db.preds[env.pkg.Path()+"."+name]
+	}
+	if !ok {
+		p, ok = e.db.preds[name]
+		if ok && e.db.ambiguous[name] {
+			return T{}, fmt.Errorf("predicate %s is defined in several packages and not in %v", name, env.pkg)
+		}
+	}
+	if ok {
 		if len(x.Args) != len(p.Params) {
 			return T{}, fmt.Errorf("pred %s expects %d arguments", name, len(p.Params))
 		}
 		penv := &specEnv{f: f, vars: map[string]T{}, cur: env.cur, old: env.old, lock: env.lock, pkg: p.Pkg, depth: env.depth,
-			results: env.results, resName: env.resName}
+			results: env.results, resName: env.resName, nbound: env.nbound}
 		if penv.pkg == nil {
 			penv.pkg = env.pkg
 		}
@@ -1344,6 +1503,31 @@ func (env *specEnv) call(x *ast.CallExpr) (T, error) {
 		return T{"(" + sf.Name + " " + strings.Join(as, " ") + ")", sf.Ret, nil}, nil
 	}
 	return T{}, fmt.Errorf("unknown spec function %s", name)
+}
+
+var staticSliceRe = regexp.MustCompile(`^\(mk_slice \S+ 0 \(- (\d+) 0\) \(- (\d+) 0\)\)$`)
+
+// staticSliceLen recognises the slice term built for a variadic argument list ("new [k]T; t[:]").
+func staticSliceLen(s string) (int, bool) {
+	m := staticSliceRe.FindStringSubmatch(s)
+	if m == nil {
+		return 0, false
+	}
+	n, err := strconv.Atoi(m[1])
+	return n, err == nil
+}
+
+// ptrTypeFacts states, for every concrete type tag in use, whether it is a pointer type.
+func (f *frame) ptrTypeFacts() {
+	e := f.e
+	for id, ct := range e.typeByID {
+		_, isP := ct.Underlying().(*types.Pointer)
+		v := "false"
+		if isP {
+			v = "true"
+		}
+		e.addDecl(fmt.Sprintf("ptrfact@%d", id), fmt.Sprintf("(assert (= (ptrtype %d) %s))", id, v))
+	}
 }
 
 // methodCall evaluates x.M(args) for pure interface methods (declared `pure` in an interface contract).
